@@ -1361,6 +1361,7 @@ func checkC24(w *World, r *Report, tier string) propMeta {
 		r.check(okc && n >= 2, r4, "filtersFor:validated-before-read", w.pos(fn.Pos()), "section bounds validated before any read or slice", "a block's filter section is read or sliced before its bounds were validated against the region")
 	}
 	c24R5(w, r)
+	c24R7(w, r)
 	nTable := c24R6(w, r)
 	return propMeta{
 		explanation: fmt.Sprintf("(R5) planBlockFilterReads' hasSections is a latch over the candidate blocks; (R6) exact prune table: evaluateBloomFilters interpreted over %d (tree, membership, absent-filter mask) cases equals its specification, so whatever the present filters rule out is disqualified. ", nTable) + "Effectiveness of pruning as reachability rules: (R1) the file-job send is unreachable from the false edge of the file-level bloom test and from an empty prefilter result; (R2) the block-filter pass opens and reads only when the prune query has conditions and the file has sections, and a block whose filters were read is queued for scanning only on the survived edge; (R3) row data is read only by processDataBlock (called only from the block worker), block jobs are sent only from the file worker's survivor loop; (R4) the scan reads exactly (RowDataOffset, RowDataSize) of its block and filter chunks start at the evaluated block's validated section.",
